@@ -23,9 +23,50 @@ EXPLANATION = (
 RULE_TEXT = "obligation = (rule, method / site); evaluations = abstract paths + CFG queries; non-trivial = distinct sites"
 
 
+def _factory_made_hook(mod, q: str):
+    """`NAME = F(..)` / `A, NAME = F(..)` in the class body with F a function of the module whose only return hands out
+    nested defs: the nested def that ends up under NAME (None when the binding is not of that form)"""
+    cname, name = q.split(".")
+    try:
+        cls = mod.cls(cname)
+    except AnalysisError:
+        return None
+    for st in cls.body:
+        if not (isinstance(st, ast.Assign) and len(st.targets) == 1 and isinstance(st.value, ast.Call) and isinstance(st.value.func, ast.Name) and mod.has(st.value.func.id)):
+            continue
+        t = st.targets[0]
+        names = [e.id if isinstance(e, ast.Name) else None for e in t.elts] if isinstance(t, ast.Tuple) else [t.id] if isinstance(t, ast.Name) else []
+        if name not in names:
+            continue
+        fac = [x for x in mod.get_all(st.value.func.id) if isinstance(x, ast.FunctionDef)]
+        if len(fac) != 1:
+            return None
+        rets = [r.value for r in ast.walk(fac[0]) if isinstance(r, ast.Return) and r.value is not None and not any(
+            r in list(ast.walk(d)) for d in fac[0].body if isinstance(d, ast.FunctionDef))]
+        if len(rets) != 1:
+            return None
+        r = rets[0]
+        elts = r.elts if isinstance(r, ast.Tuple) else [r]
+        if len(elts) != len(names) or not isinstance(elts[names.index(name)], ast.Name):
+            return None
+        inner = [d for d in fac[0].body if isinstance(d, ast.FunctionDef) and d.name == elts[names.index(name)].id]
+        stores = [n for n in ast.walk(fac[0]) if isinstance(n, ast.Name) and n.id == elts[names.index(name)].id and isinstance(n.ctx, ast.Store)]
+        return inner[0] if len(inner) == 1 and not stores else None
+    return None
+
+
 def rule_H1(ctx) -> None:
     mod = ctx.repo.mod(M_ENUM)
     for q in ("EnumType.__setattr__", "EnumType.__delattr__", "Enum.__setattr__", "Enum.__delattr__"):
+        made = _factory_made_hook(mod, q) if not mod.has(q) else None
+        if made is not None:
+            ctx.analysed(q)
+            g = CFG(made, implicit_exc=False)
+            if g.exit.id in g.reachable([g.entry.id], labels=normal_edge):
+                ctx.refuted("H1", f"{q}:never-returns", "normal-exit", mod.loc(made), f"{q} (made by a factory) can return normally, i.e. the mutation is silently accepted or ignored")
+            else:
+                ctx.proved("H1", f"{q}:never-returns", mod.loc(made), "made by a factory")
+            continue
         if not mod.has(q):
             ctx.refuted("H1", f"{q}:never-returns", "absent", mod.rel, f"{q} is not defined: enum classes / members can be mutated", "E.X = 5 / del E.X / E.X.value = 3")
             continue
